@@ -14,6 +14,7 @@ type RunOpts struct {
 	Traces int // random histories
 	Steps  int // twin steps per history
 	Grids  int // forged-message grid histories
+	Matrix int // method x via matrices
 }
 
 // Generate writes Traces random histories and Grids forged-message grids to out.
@@ -22,6 +23,10 @@ func Generate(out *trace.W, o RunOpts) map[string]int {
 	for i := 0; i < o.Traces; i++ {
 		r := rand.New(rand.NewSource(o.Seed*1000003 + int64(i)))
 		history(out, r, fmt.Sprintf("h%d_%d", o.Seed, i), o.Steps, stats)
+	}
+	for i := 0; i < o.Matrix; i++ {
+		r := rand.New(rand.NewSource(o.Seed*5000011 + int64(i)))
+		matrix(out, r, fmt.Sprintf("m%d_%d", o.Seed, i), stats)
 	}
 	for i := 0; i < o.Grids; i++ {
 		r := rand.New(rand.NewSource(o.Seed*7000003 + int64(i)))
@@ -34,7 +39,64 @@ func worldFor(r *rand.Rand) *World {
 	o := DefaultOpts()
 	o.Decimals = []uint32{3, 6, 7, 6, 3, 0}[r.Intn(6)]
 	o.BaseFee = []int64{2, 5, 10}[r.Intn(3)]
+	o.UnbondingSecs = []int64{20, 20, 40}[r.Intn(3)]
+	o.MaxEntries = []uint32{3, 2}[r.Intn(2)]
 	return New(o)
+}
+
+// matrix: every state-changing method through every kind of caller, in an order that makes each succeed at least
+// once, followed by the characteristic refusals (transitive redelegation, too many entries, foreign recipient).
+func matrix(out *trace.W, r *rand.Rand, tid string, stats map[string]int) {
+	w := worldFor(r)
+	st := w.Genesis(out, tid)
+	c := w.C
+	n := 0
+	step := func(caller string, ops ...Op) {
+		checkClean(st)
+		cont := "A"
+		if r.Intn(2) == 0 {
+			cont = "B"
+		}
+		sender := caller
+		if IsContract(caller) {
+			sender = "a0"
+		}
+		c = w.Step(out, c, st, n, Call{Caller: caller, Sender: sender, Ops: ops}, cont, stats)
+		n++
+		st = w.Accrue(out, c)
+	}
+	for _, d := range []string{"a3", "cC", "cD", "cO", "cW", "cS"} {
+		x := int64(r.Intn(4))
+		step(d, Op{M: "delegate", V: "v0", Amt: 10 + x})
+		step(d, Op{M: "delegate", V: "v1", Amt: 8 + x})
+		step(d, Op{M: "transfer", To: d, Amt: 2_000_000_000}) // claims the pending rewards, then fails: nothing may remain
+		step(d, Op{M: "withdrawReward", V: "v0"})
+		step(d, Op{M: "withdrawRewards"})
+		step(d, Op{M: "undelegate", V: "v0", Amt: 3})
+		step(d, Op{M: "redelegate", Src: "v1", V: "v2", Amt: 2 + x})
+		step(d, Op{M: "redelegate", Src: "v2", V: "v0", Amt: 1}) // transitive: refused
+		step(d, Op{M: "transfer", To: d, Amt: 4 + x})
+		step(d, Op{M: "transfer", To: "a4", Amt: 1}) // foreign recipient: refused
+		step(d, Op{M: "undelegate", V: "v0", Amt: 1})
+		step(d, Op{M: "undelegate", V: "v0", Amt: 1})
+		step(d, Op{M: "undelegate", V: "v0", Amt: 1}) // with 40 s unbonding time or 2 entries: refused
+		w.Views(out, c, []string{d, "a0"})
+	}
+	// two calls in one transaction
+	step("cT", Op{M: "delegate", V: "v0", Amt: 5}, Op{M: "delegate", V: "v1", Amt: 6})
+	step("cT", Op{M: "undelegate", V: "v0", Amt: 2}, Op{M: "undelegate", V: "v1", Amt: 2})
+	step("cT", Op{M: "withdrawReward", V: "v0"}, Op{M: "redelegate", Src: "v1", V: "v2", Amt: 1})
+	step("cT", Op{M: "delegate", V: "v0", Amt: 1}, Op{M: "undelegate", V: "v0", Amt: 1})
+	step("cT", Op{M: "delegate", V: "v2", Amt: 1}, Op{M: "delegate", V: "v0", Amt: 2_000_000_000}) // second fails: nothing remains
+	// signed messages by the EOA
+	sg := func(o Op) Op { o.MD, o.Signer, o.Chain, o.Tamper = "a3", "a3", "ours", "none"; return o }
+	step("a3", sg(Op{M: "delegateByMsg", Act: "Delegate", V: "v2", Amt: 3}))
+	step("a3", sg(Op{M: "delegateByMsg", Act: "Undelegate", V: "v1", Amt: 1}))
+	step("a3", sg(Op{M: "delegateByMsg", Act: "Redelegate", Src: "v0", V: "v1", Amt: 1}))
+	step("a3", sg(Op{M: "withdrawByMsg", V: "v0"}))
+	step("a3", sg(Op{M: "withdrawByMsg", V: "all"}))
+	w.Views(out, c, w.D)
+	stats["matrices"]++
 }
 
 func checkClean(st trace.M) {
